@@ -112,12 +112,9 @@ static bool remove_empty_directory(const std::string& path)
     if (ret == 0)
         return true;
 
-    // POSIX allows for either ENOTEMPTY or EEXIST. Neither is it any trouble if what the path names is not a
-    // directory that could be removed in the first place: "." (EINVAL), a mount point (EBUSY), a symbolic
-    // link (ENOTDIR), or something which is gone already as the path names it twice (ENOENT for "d//f").
-    if (errno != ENOTEMPTY && errno != EEXIST && errno != EINVAL && errno != EBUSY && errno != ENOTDIR && errno != ENOENT)
-        throw std::system_error(errno, std::generic_category(), "Unable to remove directory " + path);
-
+    // Most of the time the directory is just not empty (POSIX allows for either ENOTEMPTY or EEXIST). Whatever
+    // else keeps it where it is - it is ".", a mount point or a symbolic link, it is not ours to remove, the
+    // file system is read-only - is no trouble either: the file has been removed and that is what was asked for.
     return false;
 }
 
